@@ -1482,7 +1482,8 @@ pub fn judge_one(sc: &Scenario, obs: &Observation, duo: bool) -> (Vec<Violation>
     let mut out = vec![];
     let judgements = ctx.check_reports(&mut out);
     if let Some(p) = &obs.panic {
-        for prop in ["C05", "C13", "C20"] {
+        // (every property that speaks about what scrut reports)
+        for prop in ["C05", "C13", "C14", "C15", "C20"] {
             out.push(v(prop, "scrut-panicked", None, format!("scrut panicked: {}", p)));
         }
     }
